@@ -19,6 +19,7 @@ func runC02Gaps2(c *eng.Ctx) {
 	c02gGroupPolicyHierarchy(c)
 	c02gPathTableVerdicts(c)
 	c02gHandAuthenticatedEndpoints(c)
+	c02gCacheKeyInjective(c)
 }
 
 func c02gOriginKinds(v ssa.Value) []string {
@@ -397,4 +398,61 @@ func c02gHandAuthenticatedEndpoints(c *eng.Ctx) {
 			c.Prov(f, "request checked", pc, a[4], `^param:req$`)
 		}
 	}
+}
+
+// C02.7d: the policy cache key separates namespace and name injectively: the
+// caller-supplied name is appended verbatim and never normalised together with
+// the namespace component. A cleaning join (path.Join / path.Clean) resolves
+// ".." elements of the NAME against the namespace UUID, so a policy named
+// "../<other-uuid>/<policy>" addresses another namespace's cache entry and that
+// namespace's policy judges the token.
+func c02gCacheKeyInjective(c *eng.Ctx) {
+	f := c.Fn("policy.(*Store).cacheKey")
+	if f == nil {
+		return
+	}
+	c.Clause("R5", "C02.7")
+	cleaning := regexp.MustCompile(`^call:(path|path/filepath)\.(Join|Clean)$`)
+	verbatim := regexp.MustCompile(`^(field:ns\.UUID|param:name|const:.*|call:fmt\.Sprintf)$`)
+	n := 0
+	for _, r := range eng.Returns(f) {
+		if r.Block().Comment == "recover" || len(r.Results) == 0 {
+			continue
+		}
+		vals, _, _ := eng.ReturnVals(r, 0)
+		for _, v := range vals {
+			if v == nil {
+				continue
+			}
+			n++
+			site := "cache key keeps namespace and name apart"
+			kinds := c02gOriginKinds(v)
+			bad, unknown := "", ""
+			hasNS, hasName := false, false
+			for _, k := range kinds {
+				switch {
+				case cleaning.MatchString(k):
+					bad = k
+				case !verbatim.MatchString(k):
+					unknown = k
+				}
+				hasNS = hasNS || k == "field:ns.UUID"
+				hasName = hasName || k == "param:name"
+			}
+			if sp, ok := v.(*ssa.Call); ok && strings.HasSuffix(eng.CalleeName(&sp.Call), "fmt.Sprintf") {
+				hasNS, hasName = true, true // operands are boxed into the variadic slice; not followed here
+			}
+			switch {
+			case bad != "":
+				c.Violation(f, site, r.Pos(), "the key is built with "+strings.TrimPrefix(bad, "call:")+", which cleans \"..\" elements of the policy name against the namespace UUID: a name \"../<uuid>/<policy>\" yields another namespace's key", nil)
+			case unknown != "":
+				c.Undecided(f, site, r.Pos(), "unreviewed key construction: "+unknown)
+			case !hasNS || !hasName:
+				c.Violation(f, site, r.Pos(), "the key does not contain both the namespace UUID and the policy name: "+strings.Join(kinds, ", "), nil)
+			default:
+				c.OK(f, site, r.Pos(), strings.Join(kinds, " + "))
+			}
+		}
+	}
+	c.Floor(f, "returns of cacheKey", n, 1)
 }
